@@ -1660,8 +1660,13 @@ package goatlang
 //@   property C15 C03
 //@   modifies allbut(H$VM,H$lookup)
 //@   nopanic
-//@   callsite#firstline go/build/constraint.IsGoBuild: arg_0 == strings.Split(strings.TrimSpace(s), "\n")[0]
-//@   callsite#parse go/build/constraint.Parse: arg_0 == strings.Split(strings.TrimSpace(s), "\n")[0]
+//@   -- the constraint is looked for in the leading run of blank and // lines (not only on line 1);
+//@   -- what is parsed is a line that IsGoBuild accepted; a file is let through unconstrained only
+//@   -- when that run ends without one
+//@   callsite#leading go/build/constraint.IsGoBuild: strings.HasPrefix(arg_0, "//")
+//@   callsite#parse go/build/constraint.Parse: constraint.IsGoBuild(arg_0)
+//@ func checkConstraint loop 0
+//@   invariant true
 //@ func checkConstraint closure 0
 //@   property C15
 //@   nopanic
